@@ -3,4 +3,5 @@ CONSTANTS MaxHist = 6
   CfgIds = {1, 2, 3, 4}
   DeepCfgIds = {1, 2, 3, 4}
   StmtAct = TRUE
+  LibIds <- AllLibIds
 INVARIANTS TypeOK ResetRestores Laws
